@@ -692,10 +692,11 @@ pub fn run(tier: Tier) -> Report {
     one_step_sweep(&rep, tier);
     long_range_sweep(&rep, tier);
     unmerged_histories(&rep, tier, &ops);
+    start_code_sweep(&rep, tier);
 
     rep.set_rule(
         "BFS to fixpoint over the reader's exact state (bytes pulled, buffer length, bit offset, grown?, and the ring buffer's physical layout: capacity and first-slice length) for every source; every operation of the alphabet applied in every state, every step compared with a bit-vector model, a drain probe at every new state; \
-         plus every history of 4 (thorough 5) operations over a reduced alphabet without state merging, with a drain probe at the end; plus a one-step sweep of all two-byte sources x offsets x widths x types; plus a long-range sweep (one skip of 2^k + d bits, k = 3..25 (thorough 28), d = -9..9, from bit offsets 0, 3 and 8 of a multi-megabyte source, then reads of several widths in four orders and the exact reader state, or the same inside a transaction that fails and must leave the reader where it started; and skips beyond the end of the source up to u32::MAX); non-trivial transition = transaction/union/look-ahead/grow, or any step ending off a byte boundary",
+         plus every history of 4 (thorough 5) operations over a reduced alphabet without state merging, with a drain probe at the end; plus a start code at every bit position 0..150 of zero-free noise, searched after look-aheads that left up to 200 bits buffered and skips of 0..8 bits, with and without in_error; plus a one-step sweep of all two-byte sources x offsets x widths x types; plus a long-range sweep (one skip of 2^k + d bits, k = 3..25 (thorough 28), d = -9..9, from bit offsets 0, 3 and 8 of a multi-megabyte source, then reads of several widths in four orders and the exact reader state, or the same inside a transaction that fails and must leave the reader where it started; and skips beyond the end of the source up to u32::MAX); non-trivial transition = transaction/union/look-ahead/grow, or any step ending off a byte boundary",
     );
     rep.sample(json!({"source": "00 80 a5", "history": ["read_bits::<u32>(1)", "commit", "with_transaction{read 17 bits; fail}", "read_u8"]}));
     rep.sample(json!({"source": "ff 80 00 40 12", "history": ["skip_bits(7)", "recognize_start_code(false) -> Some(2)"]}));
@@ -835,6 +836,70 @@ fn unmerged_histories(rep: &Report, tier: Tier, ops: &[Op]) {
     rep.extra("reader_object_size", json!(H263Reader::<&[u8]>::verif_object_size()));
 }
 
+/// Start-code search in long sources: one start code at every bit position 0..150 of 28 bytes of
+/// zero-free noise (six byte pools), searched after a look-ahead that left 0..200 bits buffered and
+/// a skip of 0..8 bits, with and without `in_error`.
+fn start_code_sweep(rep: &Report, tier: Tier) {
+    let pools: [&[u8]; 6] = [&[0xFF], &[0xF0, 0xFF, 0x0F], &[0x01, 0xFF, 0x80, 0x7F], &[0x55, 0xAA, 0x33], &[0x10, 0x08, 0xFE, 0x01, 0xC0], &[0x81, 0x7E, 0x24, 0xDB, 0x5A, 0x3C, 0x96]];
+    let looks: Vec<usize> = if tier.thorough() { vec![0, 8, 33, 40, 64, 72, 96, 104, 128, 160, 200] } else { vec![0, 40, 64, 96, 128, 200] };
+    let mut work: Vec<(usize, usize, usize)> = vec![];
+    for pool in 0..pools.len() {
+        for p in 0..=150usize {
+            for &k in &looks {
+                work.push((pool, p, k));
+            }
+        }
+    }
+    let n: u64 = work
+        .par_iter()
+        .map(|&(pool, p, k)| {
+            let mut data: Vec<u8> = (0..28).map(|i| pools[pool][(i * 5 + i / 3) % pools[pool].len()]).collect();
+            // write sixteen zeros and a one at bit p
+            for b in p..p + 17 {
+                let (byte, bit) = (b / 8, 7 - b % 8);
+                if b == p + 16 {
+                    data[byte] |= 1 << bit;
+                } else {
+                    data[byte] &= !(1 << bit);
+                }
+            }
+            let bits = bits_of(&data);
+            let h = Harness { data: &data, bits: &bits, initial_avail: data.len(), tabs: tables() };
+            let mut count = 0u64;
+            for s in 0..=8u8 {
+                for ie in [false, true] {
+                    let mut ops: Vec<Op> = vec![];
+                    if k > 0 {
+                        let mut body = vec![];
+                        let mut left = k;
+                        while left > 0 {
+                            let step = left.min(100);
+                            body.push(Item::P(Prim::Skip(step as u8)));
+                            left -= step;
+                        }
+                        ops.push(Op::Look(body));
+                    }
+                    if s > 0 {
+                        ops.push(Op::P(Prim::Skip(s)));
+                    }
+                    ops.push(Op::P(Prim::Sc(ie)));
+                    ops.push(Op::P(Prim::Sc(true)));
+                    let refs: Vec<&Op> = ops.iter().collect();
+                    count += 1;
+                    if let Err(e) = h.run(&refs, true) {
+                        let class = if e.contains("panic") { panic_sig(e.split("panic ").nth(1).unwrap_or(&e)) } else { format!("C14/start-code-search-{}", if ie { "in-error" } else { "aligned" }) };
+                        rep.violation(&class, format!("source {} (start code at bit {p}): after {:?}: {e}", hex(&data), refs), json!({"kind": "reader-sc", "source": hex(&data), "start_code_at_bit": p, "look_ahead_bits": k, "skip": s, "in_error": ie, "error": e}));
+                    }
+                }
+            }
+            count
+        })
+        .sum();
+    rep.add_transitions(3 * n);
+    rep.add_states(n);
+    rep.extra("start_code_search_cases", json!(n));
+}
+
 /// byte `i` of the long pseudo-random source
 fn long_byte(i: usize) -> u8 {
     let x = (i as u64).wrapping_mul(0x9E37_79B9_7F4A_7C15);
@@ -948,6 +1013,17 @@ fn long_range_sweep(rep: &Report, tier: Tier) {
 }
 
 pub fn replay(case: &serde_json::Value) {
+    if case["kind"] == "reader-sc" {
+        let data = crate::bits::unhex(case["source"].as_str().unwrap_or(""));
+        let (k, s, ie) = (case["look_ahead_bits"].as_u64().unwrap_or(0) as u32, case["skip"].as_u64().unwrap_or(0) as u32, case["in_error"].as_bool().unwrap_or(true));
+        let mut rd = H263Reader::from_source(&data[..]);
+        if k > 0 {
+            let _: Result<(), Error> = rd.with_lookahead(|r| r.skip_bits(k));
+        }
+        let _ = rd.skip_bits(s);
+        println!("source {} (start code written at bit {}): look-ahead of {k} bits, skip_bits({s}), recognize_start_code({ie}) -> {:?}, then recognize_start_code(true) -> {:?}", hex(&data), case["start_code_at_bit"], rd.recognize_start_code(ie), rd.recognize_start_code(true));
+        return;
+    }
     if case["kind"] == "reader-long" {
         let n = case["source_bytes"].as_u64().unwrap_or(0) as usize;
         let data: Vec<u8> = (0..n).map(long_byte).collect();
